@@ -142,6 +142,22 @@ def hardening_product():
     return out
 
 
+def body_exception_product():
+    """every class of exception the BODY may leave the context with — unprintable ones, groups, the builtins the
+    wrappers filter on — at every moment, through every API, with and without a host logger that formats at DEBUG"""
+    out = []
+    for i, k in enumerate(H.EXC_CLASSES):
+        for m in H.MOMENTS:
+            for api in (H.APIS + ["with_initialize"]):
+                c = _case("well", "exception", m, exc_class=k, api=api)
+                if (i + len(out)) % 2:
+                    c["logging"] = "debug"
+                out.append(c)
+        out.append(_case("ignore_term", "exception", "after", exc_class=k, logging="debug"))
+        out.append(_case("flood", "exception", "before", exc_class=k))
+    return out
+
+
 def status_product():
     """every class of exit status {0, non-zero, killed by the signal} x {reacting to SIGTERM, ending by itself before
     the exit} x {flooding (reader paused), quiet} x every exit path"""
@@ -276,6 +292,16 @@ DIRECTED = [
     _case("flood", "cancel", "before", self_exit=3),
     _case("well", "cancel", "after", on_term=0),
     _case("exit_at", "normal", "after", k=2, code=0),
+    # what the body raises: unprintable, groups, the classes the wrappers filter; a host logger that formats at DEBUG
+    _case("well", "exception", "after", exc_class="unprintable"),
+    _case("well", "exception", "before", exc_class="unreprable", logging="debug"),
+    _case("well", "exception", "inflight", exc_class="ExceptionGroup-unprintable", api="StdioTransport"),
+    _case("ignore_term", "exception", "after", exc_class="BaseExceptionGroup", logging="debug"),
+    _case("well", "exception", "after", exc_class="ExceptionGroup-cancel-scope", api="StdioClient"),
+    _case("well", "exception", "after", exc_class="StopAsyncIteration", api="with_initialize", logging="debug"),
+    _case("well", "normal", "after", logging="debug"),
+    _case("flood", "cancel", "before", logging="debug"),
+    _case("exit_at", "timeout", "after", k=1, logging="debug"),
     # the stderr pipe
     _case("well", "normal", "before", stderr_flood="on_term", env="quiet"),
     _case("well", "cancel", "after", stderr_flood="always", env="quiet"),
@@ -293,6 +319,9 @@ DIRECTED = [
      "order": [2, 1, 0], "send_order": [0, 1, 2]},
 ]
 BAD = [{"bad": b, "api": a} for b in ("missing", "not-executable", "directory", "bare-name") for a in H.APIS]
+# the same object entered again after the failed start (a host that retries): it must fail again, not "succeed" empty
+BAD += [{"bad": b, "api": a, "attempts": n, **({"logging": "debug"} if n == 3 else {})}
+        for b in ("missing", "not-executable") for a in ("StdioTransport", "StdioClient", "stdio_client") for n in (2, 3)]
 
 
 def entry_scan(step, upto=200, apis=("stdio_client",)):
@@ -326,17 +355,18 @@ class Scenarios(Suite):
     def cases(self, ctx, budget):
         rng = ctx.sub_rng("c16", budget)
         if budget == "quick":
-            full = product(H.APIS) + backlog_product() + reuse_product() + hardening_product() + status_product() + stderr_product() + concurrent_product()
+            full = product(H.APIS) + backlog_product() + reuse_product() + hardening_product() + body_exception_product() + status_product() + stderr_product() + concurrent_product()
             out = [dict(c) for c in DIRECTED] + [dict(c) for c in rng.sample(full, 6)]
             out += entry_scan(8, 160)
-            out += [BAD[0], BAD[4], BAD[8]]
+            out += [BAD[0], BAD[4], BAD[8]] + [b for b in BAD if b.get("attempts") == 2 and b["bad"] == "missing"] \
+                + [b for b in BAD if b.get("attempts") == 3 and b["bad"] == "not-executable" and b["api"] != "stdio_client"]
         elif budget == "thorough":
             out = (product(H.APIS) + backlog_product(H.APIS) + reuse_product() + reuse_product(("StdioClient",), (3,))
-                   + hardening_product() + status_product() + stderr_product() + concurrent_product()
+                   + hardening_product() + body_exception_product() + status_product() + stderr_product() + concurrent_product()
                    + entry_scan(2, 200) + entry_scan(8, 160, H.APIS[1:]) + BAD)
         else:  # search
             out = (product(["stdio_client"], nreq=1, junk=False) + backlog_product() + reuse_product(("StdioClient", "StdioTransport"))
-                   + hardening_product() + status_product() + stderr_product() + concurrent_product()
+                   + hardening_product() + body_exception_product() + status_product() + stderr_product() + concurrent_product()
                    + entry_scan(4, 160) + BAD[:4])
         for i, c in enumerate(out):
             if "bad" not in c:
@@ -394,8 +424,13 @@ class Scenarios(Suite):
             return None
         if "bad" in case:
             if o["entered"]:
-                return (f"bad-command-entered/{case['bad']}", f"entering the context with an unstartable command "
-                        f"({case['bad']}, {case.get('api')}) did not raise", {"raised_on_enter": True})
+                which = ""
+                if case.get("attempts", 1) > 1:
+                    which = f" on attempt {1 + next((i for i, a in enumerate(o.get('attempts', [])) if a != 'raised'), 0)} of " \
+                            f"{case['attempts']} with the same object ({o.get('attempts')})"
+                return (f"bad-command-entered/{case['bad']}{'/retry' if which and o.get('attempts', ['x'])[0] == 'raised' else ''}",
+                        f"entering the context with an unstartable command ({case['bad']}, {case.get('api')}) did not raise{which}",
+                        {"raised_on_enter": True})
             return None
         if case.get("concurrent"):
             names = "+".join(sp["behaviour"] + ("%d" % sp["k"] if "k" in sp else "") for sp in case["concurrent"])
@@ -474,11 +509,13 @@ class Scenarios(Suite):
 
     def kind(self, case, o):
         if "bad" in case:
-            return f"bad-command/{case['bad']}"
+            return f"bad-command/{case['bad']}/{case.get('api')}{'x%d' % case['attempts'] if case.get('attempts', 1) > 1 else ''}"
         b = case["behaviour"] + ("%d" % case["k"] if "k" in case else "")
         if case.get("concurrent"):
             b = "concurrent:" + "+".join(sp["behaviour"] + ("%d" % sp["k"] if "k" in sp else "") for sp in case["concurrent"]) \
                 + "/" + case.get("req_api", "legacy")
+        if case.get("exc_class"):
+            b += "+raises-" + case["exc_class"]
         if "on_term" in case:
             b += "+exit%d-on-term" % case["on_term"]
         if "self_exit" in case:
@@ -489,7 +526,7 @@ class Scenarios(Suite):
             return f"{b}/{case['path']}/entry-{'cut' if not o['entered'] else 'body'}/{case.get('api')}"
         if case["behaviour"] == "close_stdout":
             b += "-" + case.get("linger", "eof") + ("@%d" % case["close_after"] if case.get("close_after") else "")
-        flags = "".join("+" + k for k in ("stderr_flood", "chatty", "falsy_result", "term_delay", "env", "stderr", "hostile_args", "nested", "legacy",
+        flags = "".join("+" + k for k in ("logging", "stderr_flood", "chatty", "falsy_result", "term_delay", "env", "stderr", "hostile_args", "nested", "legacy",
                                           "exc_text", "req_id", "empty_x", "backlog_bytes") if case.get(k) is not None)
         if case.get("backlog", 0) > 95:
             flags += "+queue-full"
@@ -502,7 +539,11 @@ class Scenarios(Suite):
 
     def shrink_candidates(self, case):
         if "bad" in case:
-            if case.get("api") != "stdio_client":
+            if "logging" in case:
+                yield {a: b for a, b in case.items() if a != "logging"}
+            if case.get("attempts", 1) > 2:
+                yield dict(case, attempts=2)
+            if case.get("api") != "stdio_client" and case.get("attempts", 1) == 1:
                 yield dict(case, api="stdio_client")
             return
         if case.get("api") != "stdio_client":
@@ -520,7 +561,7 @@ class Scenarios(Suite):
                                order=[ren[i] for i in case.get("order", []) if i in ren],
                                send_order=[ren[i] for i in case.get("send_order", []) if i in ren])
             return
-        for k in ("on_term", "self_exit", "code", "stderr_flood"):
+        for k in ("logging", "exc_class", "on_term", "self_exit", "code", "stderr_flood"):
             if k in case:
                 yield {a: b for a, b in case.items() if a != k}
         for k in ("chatty", "falsy_result", "env", "stderr", "hostile_args", "legacy", "exc_text", "req_id", "empty_x", "backlog_bytes"):
